@@ -56,6 +56,8 @@ struct RecGeom {
     static std::array<RealType,Dim>& leafWidth(){ static std::array<RealType,Dim> c; return c; }
     static std::array<RealType,Dim>& boxWidth(){ static std::array<RealType,Dim> c; return c; }
     static long& height(){ static long h = 0; return h; }
+    // the particle array the tree was built from (to check "original index + unmodified data")
+    static const std::vector<std::array<RealType,Dim>>*& original(){ static const std::vector<std::array<RealType,Dim>>* p = nullptr; return p; }
 };
 
 template <class RealType_T, class SpaceIndexType_T>
@@ -81,6 +83,10 @@ public:
         for(long p = 0 ; p < n ; ++p){
             for(long d = 0 ; d < Dim ; ++d){
                 const RealType x = parts[d][p];
+                if(Geom::original() && (idx[p] < 0 || idx[p] >= (long)Geom::original()->size() || std::memcmp(&x, &(*Geom::original())[idx[p]][d], sizeof(RealType)) != 0)){
+                    std::ostringstream os; os << "X " << op << " leaf " << symb.spaceIndex << " particle " << idx[p] << " does not carry the data of the particle inserted at that index (dim " << d << ")";
+                    RecLog::err(os.str());
+                }
                 const RealType lo = Geom::corner()[d] + RealType(symb.boxCoord[d]) * Geom::leafWidth()[d];
                 const RealType hi = Geom::corner()[d] + RealType(symb.boxCoord[d]+1) * Geom::leafWidth()[d];
                 const bool lastCell = (symb.boxCoord[d] == limit-1);
